@@ -51,9 +51,11 @@ RULE = ("configurations = MaxEvaluationCost {60,400} x MaxCallDepth {6,12} x Sta
         "{evaluates a catch that catches nothing, catch(error()) and a successful catch, sprintf(\"%O\") = safe_apply of object_name()} x "
         "MaxEvaluationCost x MaxCallDepth x StackSize (quick: base, the 7 one-factor changes, the 3 master behaviours on the base and one on "
         "the small stacks = 12 boots; thorough: 96 + 24 = 120 boots), "
-        "each a separate boot; programs (about 640 per configuration): 8 loop forms (while(1), for(;;), do-while, while(i--), for with constant / "
-        "local bound, nested foreach over array / mapping) x 7 bodies (empty, call, catch(expr), catch{block}, efun with callback, "
-        "catch of an endless loop, call_other); catch nestings 1..3 around an endless loop, a loop after a caught one, while(1) around "
+        "each a separate boot; programs (about 2240 per configuration): 8 loop forms (while(1), for(;;), do-while, while(i--), for with constant / "
+        "local bound, nested foreach over array / mapping) x 18 bodies (empty, call, catch(expr), catch{block}, efun with callback, "
+        "catch of an endless loop, call_other, and a REAL run-time error caught in every iteration: division by zero, error(), index out of "
+        "bounds, call_other on 0, error in a callee, bad operand in a catch block, sprintf error, throw, catch(catch(1/0)), error inside an "
+        "efun callback, load of a missing file); catch nestings 1..3 around an endless loop, a loop after a caught one, while(1) around "
         "catch(catch(loop)); endless recursion: direct, mutual, 3-cycle, through local/functional/anonymous/efun/bound function pointers, "
         "call_other, simul_efun, filter (funptr, by name, mapping), map (array, mapping, string), sort_array, unique_array, unique_mapping, "
         "implode with function, catch nestings 1..3, catch inside a loop, create() of a clone, wide frames, 12 arguments, varargs spread; "
@@ -68,7 +70,11 @@ RULE = ("configurations = MaxEvaluationCost {60,400} x MaxCallDepth {6,12} x Sta
         "(call_other(ob, ({fn, args...})) on an object and on an array, local and efun funptrs with 15..120 bound args); family "
         "'stack-edge': the value stack is filled by the arguments of one call to every distance -12..+16 slots around StackSize and then "
         "one of 10 sites pushes/reserves 10 values at once (callee with 10 locals, F_PUSH, spread, call_other array args, bound funptr "
-        "args, efun callback extra args, call_other on an array, aggregate, catch of the first two); catch-recursion started 0/1/2 frames "
+        "args, efun callback extra args, call_other on an array, aggregate, catch of the first two); family 'pair' (binary operations for every size relation of the operands): container {mapping, array, string, buffer} x "
+        "operation {a+b, a+=b, temporary+b, a+temporary; mapping/array also global+=b, element+=b; array a|b, a&b, a-b; mapping a*b; string "
+        "sprintf(\"%s%s\"), implode} x |a| in {1, L/6, L/2-1, half of the result, L/2+1, L-1, L} x result size {L, L+1, L+9} (|b| follows, so "
+        "|a|<|b|, |a|=|b| and |a|>|b| all occur) x {disjoint, half-overlapping contents where equal keys / elements merge} x {plain, inside "
+        "catch}, L = the limit of that container kind; catch-recursion started 0/1/2 frames "
         "deeper (parity of the depth limit), wide frames / spread recursion inside catch, catch(f(allocate(N)...)).  Monitor (hook H1) at EVERY instruction boundary: "
         "instructions <= 3 x MaxEvaluationCost, control frames <= MaxCallDepth, sp inside the configured StackSize, size of the value on top of the stack; "
         "at the end every value reachable from the object's variables and the return value; a limit error raised (recorded inside "
